@@ -145,14 +145,17 @@ func genPCfg(r *rng, kind string, pf pProfile) pcfg {
 		}
 		c.cost = r.pickS("", "XZCost")
 	}
-	if r.chance(pf.badCfgPct) {
-		// malformed stream: zero / negative / huge values for a random field
+	for wild := 0; wild < 3 && r.chance(pf.badCfgPct); wild++ {
+		if wild > 0 && pf.badCfgPct < 50 {
+			break
+		}
+		// malformed stream: zero / negative / huge values for a random field (several with a high badCfgPct)
 		fs := kindFields[kind]
 		k := fs[r.intn(len(fs))]
 		if k == "Cost" {
 			c.cost = r.pickS("x", "xzcost", "XZCost_")
 		} else {
-			c.f[k] = r.pick(0, -1, -100, 1<<31, 1<<32-8, 1<<32-7, 1<<40, 9, 25, 129)
+			c.f[k] = r.pick(0, -1, -100, 1<<31, 1<<32-8, 1<<32-7, 1<<40, 9, 25, 129, 1<<31-1, 1<<62, 2, 1, 8, 24, 23, 128)
 			// keep table sizes small enough to run
 			if (k == "HashBits" || k == "HashBits1" || k == "HashBits2") && c.f[k] > 16 {
 				c.f[k] = 25
